@@ -352,21 +352,26 @@ func boundaryCases(thorough bool) []*Case {
 	add("lines-max-minus", rep("\n", 1048573)+"pri status \"#x\"\n")
 	add("lines-max", rep("\n", 1048574)+"pri status \"#x\"\n")
 	add("lines-over", rep("\n", 1048576)+"pri status \"#x\"\n")
+	// Recursion depth proportional to the input size, far beyond 64 KiB: without depth
+	// limits in the parser these overflow Go's 1 GB stack (fatal error, not a panic).
+	huge := []int{3000000}
+	if thorough {
+		huge = []int{300000, 1000000, 3000000, 6000000}
+	}
+	for _, d := range huge {
+		add("huge-parens", inPlain("    i = "+rep("(", d)+"1"+rep(")", d)))
+		add("huge-unary", inPlain("    i = "+rep("+", d)+"1"))
+		add("huge-type-ptr", "pri func f(a: "+rep("ptr ", d)+"bar) {\n}\n")
+		add("huge-list", "pri const X : roarray[1] base.u8 = "+rep("[", d)+"1"+rep("]", d)+"\n")
+		add("huge-if-nest", inPlain(rep("if true {\n", d/3)+rep("}\n", d/3)))
+		add("huge-else-if", inPlain("if i == 1 {\n"+rep("} else if i == 2 {\n", d/3)+"}"))
+	}
 	if thorough {
 		b := strings.Builder{}
 		for i := 0; i < 1048576-1024+10; i++ {
 			fmt.Fprintf(&b, "i%x ", i)
 		}
 		add("too-many-distinct-tokens", b.String())
-		// Recursion depth proportional to the input size, far beyond 64 KiB.
-		for _, d := range []int{300000, 3000000} {
-			add("huge-parens", inPlain("    i = "+rep("(", d)+"1"+rep(")", d)))
-			add("huge-unary", inPlain("    i = "+rep("+", d)+"1"))
-			add("huge-type-ptr", "pri func f(a: "+rep("ptr ", d)+"bar) {\n}\n")
-			add("huge-if-nest", inPlain(rep("if true {\n", d)+rep("}\n", d)))
-			add("huge-else-if", inPlain("if i == 1 {\n"+rep("} else if i == 2 {\n", d)+"}"))
-			add("huge-list", "pri const X : roarray[1] base.u8 = "+rep("[", d)+"1"+rep("]", d)+"\n")
-		}
 	}
 	return out
 }
